@@ -137,6 +137,18 @@ CLAIMED = {
                 "preferences (clock-based 'current'), a missing year is the clock's year, and the format's reading wins.",
         "design_ref": "DESIGN.md §3 C14",
     },
+    "C17": {
+        "text": "Token loop: the real Locale.translate_search runs over every sequence of <= 3 (thorough 4) tokens drawn by "
+                "symbolic choice from a per-locale pool (12 locales incl. all without word spacing): no exception, "
+                "translated/original aligned, originals are in-order joins of the tokens. Alignment: the real "
+                "_simplify_split_align over symbolic expansion/merge shapes against the expected placeholder layout. "
+                "Split path: the real parse_found_objects/split_by/choose_best_split over chunks of <= 3 (4) pieces whose "
+                "lengths straddle the 2-character threshold, inner parse outcomes as symbolic bits: no exception, hits "
+                "non-blank, in order. Pipeline: search_dates on sentence templates in 8 languages with symbolic digits "
+                "(languages given / autodetected, with/without RELATIVE_BASE): None or a non-empty list of (non-blank "
+                "in-text in-order substring, datetime[, language among those requested]). Free text is outside.",
+        "design_ref": "DESIGN.md §3 C17",
+    },
     "C19": {
         "text": "The real _load_offsets and the real C pickle.load are executed over a file proxy whose length k is a z3 "
                 "integer in [0, N] (shipped cache and 7 other contents: wrong-shape pickles, non-pickle bytes), plus the "
